@@ -1591,6 +1591,12 @@ class Interp:
             return a + tuple(SV(k, t) for k, t in zip(b.kind.args, b.tree))
         if isinstance(b, tuple) and isinstance(a, SV) and a.kind.tag == "tuple" and op == "+":
             return tuple(SV(k, t) for k, t in zip(a.kind.args, a.tree)) + b
+        if op in ("&", "|", "-", "^"):
+            # dict key views are set-like
+            if isinstance(a, ViewVal) and a.what == "keys":
+                a = self.to_set_value(st, a)
+            if isinstance(b, ViewVal) and b.what == "keys":
+                b = self.to_set_value(st, b)
         a = self.tup_to_sv(a) if not isinstance(a, (list, set, dict)) else self.lit_container(a, b)
         b = self.tup_to_sv(b) if not isinstance(b, (list, set, dict)) else self.lit_container(b, a)
         ka, kb = a.kind, b.kind
